@@ -19,6 +19,7 @@ import Cosi.Driver.Persist
 import Cosi.Driver.Cache
 import Cosi.Driver.Restart
 import Cosi.Driver.Codec
+import Cosi.Driver.RWatch
 
 open Cosi
 
@@ -45,7 +46,8 @@ def engines : List (String × Engine) := [
   ("cache", ⟨Driver.Cache.St, Driver.Cache.init, Driver.Cache.stepCache⟩),
   ("cacherun", ⟨Driver.Cache.RSt, Driver.Cache.rinit, Driver.Cache.stepRun⟩),
   ("faults", ⟨Driver.Restart.St, Driver.Restart.init, Driver.Restart.stepLine⟩),
-  ("codec", ⟨Driver.Codec.St, Driver.Codec.init, Driver.Codec.stepLine⟩)
+  ("codec", ⟨Driver.Codec.St, Driver.Codec.init, Driver.Codec.stepLine⟩),
+  ("rwatch", ⟨Driver.RWatch.St, Driver.RWatch.init, Driver.RWatch.stepLine⟩)
 ]
 
 partial def loop (e : Engine) (spec : Bool) (inp : IO.FS.Stream) (out : IO.FS.Stream) (st : e.σ) : IO Unit := do
